@@ -305,8 +305,10 @@ impl Exec {
         m.set_pacing(p.to_pacing());
         self.mon[a as usize].pacing = Some(p);
         if self.phase(a) == Some(Ph::Sleeping) {
-            // takes effect for the whole next cycle: only the armed sleep rule is given up
-            self.mon[a as usize].pace.armed = None;
+            // "The factors that affect the gc sleep time will not take effect until the start of
+            // the next collection" (rustdoc of Metrics::set_pacing): the armed sleep rule keeps the
+            // wake-up amount of the pacing that was in force when the cycle ended
+            self.stats.inc("set_pacing_while_asleep");
         } else {
             self.pace_taint(a);
         }
